@@ -66,6 +66,8 @@ KINDS = {
     "object-type-list-null": ({"type": ["object", "null"], "properties": {"q": {"type": "integer"}}}, None, [{"q": 1}, None, {}]),
     "array-type-list-null": ({"type": ["array", "null"], "items": {"type": "string"}}, None, [["a"], None, []]),
     "integer-type-list-null": ({"type": ["integer", "null"]}, None, [3, None, 0]),
+    # a property whose schema is left empty (YAML `note:` / JSON null): no constraint, but the property exists
+    "null-schema": (None, None, [1, "s", {"a": [1]}]),
     # maps whose VALUES may be null
     "map-nullable-string": ({"type": "object", "additionalProperties": {"type": "string", "nullable": True}}, None, [{"k": "v"}, {"a": None, "b": "x"}, {}]),
     "map-nullable-integer": ({"type": "object", "additionalProperties": {"type": "integer", "nullable": True}}, None, [{"k": 1}, {"a": None, "b": 2}, {}]),
@@ -153,7 +155,8 @@ def model_schema(case):
     props = {}
     req = []
     for f in case["fields"]:
-        sch = dict(KINDS[f["kind"]][0])
+        sch = KINDS[f["kind"]][0]
+        sch = dict(sch) if sch is not None else None
         if f.get("default"):
             sch["default"] = KINDS[f["kind"]][1]
         props[f["name"]] = sch
